@@ -8,6 +8,9 @@ HC_NAMES = ['A', 'B', 'DEPTH', 'TIME', 'RPM', 'GR', 'X1', 'AMPLITUDE', 'Z', 'CH-
 TZS = ['UTC', 'UTC', 'Asia/Kolkata', 'America/New_York', 'Europe/Oslo', 'Pacific/Auckland', 'Etc/GMT+9', 'Asia/Kathmandu']
 
 
+AVOID = set()     # generator tags of open known findings to steer around (set by the engine per case)
+
+
 def pick(rng, seq):
     return seq[rng.randrange(len(seq))]
 
@@ -41,6 +44,8 @@ def array_recipe(rng, rows, dtype=None, width=None, order=None, layout=None, kin
     bo = order or ('>' if rng.random() < 0.3 else '<')
     if SIZES[dt] == 1:
         bo = '|'
+    if bo == '>' and width is not None and 'be_array' in AVOID:
+        bo = '<'
     shape = [rows] if width is None else [rows, width]
     rc = {'dtype': bo + dt, 'shape': shape, 'kind': kind or 'rand', 'seed': rng.randrange(1 << 30)}
     lay = layout or pick(rng, ['C', 'C', 'C', 'F', 'strided', 'readonly'])
